@@ -242,7 +242,9 @@ def _serializer_rules(chk, meta):
                       'the type list %s the serializer zips with the key values is not the cql_type of each partition key column in key order (%s)'
                       % (tn, [x[0] for x in tds] or 'not built element by element'))
         else:
-            chk.viol('C38.serializer', site, 'key serializer is not [T.to_binary(part, proto) for T, part in zip(types, parts)]: %s' % d)
+            chk.viol('C38.serializer', site, 'key serializer: [T.to_binary(part, proto) for T, part in zip(types, parts)]',
+                     'the key serializer is not the element-wise to_binary of the partition key values (%s): a key component is encoded differently from the column\'s codec (a falsy value - 0, False, '
+                     'the epoch - as empty bytes, say) and the statement is routed to the wrong replicas' % d)
     chk.judge(nzip >= 1, 'C38.serializer', meta, 'a serializing key serializer exists', 'no serializer that encodes the key components is installed')
 
     # --- the index map
